@@ -1,2 +1,16 @@
-(* C16 - theorems follow in this commit series *)
-From TW Require Import Bytes.
+(* C16 - a render depends only on its arguments, not on earlier calls. *)
+From TW Require Import Bytes Values Eval Render Api Registry.
+
+(* every render operation (String, Response, EvaluateString, EvaluateFile) leaves the loaded
+   templates, the configuration and the registry unchanged *)
+Theorem C16_render_preserves_state fs st o : is_render o = true -> fst (step fs st o) = st.
+Proof. exact (render_preserves_state fs st o). Qed.
+Print Assumptions C16_render_preserves_state.
+
+(* hence, after ANY history of render operations, an operation observes exactly what it
+   observes when it is issued first *)
+Theorem C16_history_independent fs st h o :
+  forallb is_render h = true ->
+  snd (step fs (final_state fs st h) o) = snd (step fs st o).
+Proof. exact (history_independent fs st h o). Qed.
+Print Assumptions C16_history_independent.
